@@ -188,7 +188,7 @@ fn covering_structures(tier: &str, seed: u64, s: &mut Search) {
                 _ => format!(r#"<g CLIP>EMPTY<circle cx="{}" cy="{}" r="{}" fill="{fill}"/></g>"#, x, y, sw / 2 + 2),
             };
         }
-        let (variant, def, empty) = match i % 3 {
+        let (variant, def, empty) = match i % 5 {
             0 => (
                 "nested-clipped-child",
                 r##"<clipPath id="k"><rect x="-50" y="-50" width="400" height="400"/></clipPath><clipPath id="u"><rect x="-60" y="-60" width="500" height="500"/></clipPath><rect id="t" x="-40" y="-40" width="300" height="300" clip-path="url(#k)"/><clipPath id="zs"><use xlink:href="#t" clip-path="url(#u)"/></clipPath>"##.to_string(),
@@ -197,6 +197,12 @@ fn covering_structures(tier: &str, seed: u64, s: &mut Search) {
             1 => (
                 "user-space-clip-linking-a-bounding-box-clip",
                 r##"<clipPath id="bb" clipPathUnits="objectBoundingBox"><rect x="-0.2" y="-0.2" width="1.4" height="1.4"/></clipPath><clipPath id="zs" clip-path="url(#bb)"><rect x="-50" y="-50" width="400" height="400"/></clipPath>"##.to_string(),
+                "",
+            ),
+            3 => (
+                // a hidden shape among the clip children removes nothing and stops nothing
+                "hidden-clip-child-before-visible-ones",
+                r##"<clipPath id="zs"><rect visibility="hidden" x="0" y="0" width="5" height="5"/><rect x="-50" y="-50" width="400" height="400"/><circle style="visibility:hidden" r="3"/></clipPath>"##.to_string(),
                 "",
             ),
             _ => (
